@@ -414,7 +414,10 @@ def set_process_mode(mode):
     if mode == "debug":
         class H(logging.Handler):
             def emit(self, record):
-                record.getMessage()
+                try:
+                    record.getMessage()
+                except Exception:  # noqa: BLE001 - a log line that cannot be formatted is not this harness's subject
+                    pass
 
         logging.disable(logging.NOTSET)
         lg.handlers[:] = [H(level=logging.DEBUG)]
